@@ -52,7 +52,7 @@ else:
 @given(strategy)
 def test(value):
     counter['n'] += 1
-    if counter['n'] % 2000 == 0:
+    if counter['n'] % 500 == 0:
         clear_registry()
         dump_stats()
     try:
